@@ -425,6 +425,42 @@ class E2E:
                              cwd=d, env=self.env, timeout=120)
         return rc, global_names(d, prog["libname"]), (out + err)[-500:]
 
+    def split_boundary(self, prog, d):
+        """For each unit: the smallest -Csmax=N (N >= 1) at which the unit is written as ONE C file (no
+        <unit>.h).  On the code as it is that is the unit's estimated statement count (genc.c nStmts:
+        split iff nStmts > smax); found by bisection on what the CURRENT compiler writes, ~14 `-fc`
+        compiles of 0.15 s, no C compiler involved.  Returns {unit: N or None}."""
+        os.makedirs(d, exist_ok=True)
+        self._write(prog, d)
+        C.run(self.base() + ["-fao", prog["libname"] + ".as"], cwd=d, env=self.env, timeout=120)
+        res = {}
+        for unit in (prog["libname"], prog["mainname"]):
+            def unsplit(n):
+                for f in os.listdir(d):
+                    if f.endswith(".c") or f.endswith(".h"):
+                        os.remove(os.path.join(d, f))
+                rc, out, err = C.run(self.base() + ["-Csmax=%d" % n, "-fc", unit + ".as"], cwd=d, env=self.env, timeout=120)
+                if rc != 0 or not os.path.exists("%s/%s.c" % (d, unit)):
+                    return None
+                return not os.path.exists("%s/%s.h" % (d, unit))
+            lo, hi = 1, 1 << 14              # invariant: split at lo, one file at hi
+            a, b = unsplit(lo), unsplit(hi)
+            if a is None or b is None or a or not b:
+                res[unit] = 1 if a else None
+                continue
+            while hi - lo > 1:
+                mid = (lo + hi) // 2
+                u = unsplit(mid)
+                if u is None:
+                    lo = hi = None
+                    break
+                if u:
+                    hi = mid
+                else:
+                    lo = mid
+            res[unit] = hi
+        return res
+
     def run_config(self, prog, cfg, d, shipped=False):
         """cfg = (std, idlen, smax, lines).  Returns a result dict; 'stage' names where it failed."""
         std, idlen, smax, lines = cfg
@@ -1048,6 +1084,20 @@ def e2e_stage(rep, tier, p):
                 if st != "ok":
                     rep.violation("runtime/libaldor C regenerated with -Cidlen=%d does not build: %s" % (i, "\n".join(w)[:600]),
                                   {"kind": "world", "idlen": i, "errors": w[:5]}, key="opt:-Cidlen=%d:library-rebuild" % i)
+        # split limits aimed at the split / no-split decision: -Csmax around each unit's own boundary
+        # (the limit at which the unit stops being split = its estimated statement count), default
+        # std / idlen / lines.  The fixed values 0,1,5,50 never hit it.
+        bounds = e.split_boundary(prog, pd + "/boundary")
+        stats.setdefault("split_boundaries", {}).update(bounds)
+        for unit, bnd in sorted(bounds.items()):
+            if bnd is None:
+                rep.notes.append("no split boundary found for unit %s" % unit)
+                continue
+            for sm in (bnd - 2, bnd - 1, bnd, bnd + 1):
+                c = ("old", p["idlen"], sm, "no-lines")
+                if sm > 1 and c not in cfgs:
+                    cfgs.append(c)
+                    stats["boundary_configs"] = stats.get("boundary_configs", 0) + 1
         for c in cfgs:
             ref(c[0], c[2])
 
